@@ -9,9 +9,11 @@ package zzvf
 // can assert sender/receiver agreement and coverage on them.
 
 import (
+	"crypto"
 	"crypto/cipher"
 	"crypto/ed25519"
 	"errors"
+	"io"
 )
 
 func clone(b []byte) []byte {
@@ -191,4 +193,42 @@ func NewAEADFromKey(key []byte) (cipher.AEAD, error) {
 		return nil, errors.New("chacha20poly1305: bad key length")
 	}
 	return &AEAD{KeyID: -1, K: first64(key)}, nil
+}
+
+// ----- Ed25519ctx (signatures with context) -----
+
+type SigCtxCall struct {
+	KeyID int
+	Msg   []byte
+	Sig   []byte
+	Ctx   []byte
+	OK    bool
+}
+
+var (
+	CtxSigns    []*SigCtxCall
+	CtxVerifies []*SigCtxCall
+	ErrVerify   = errors.New("ed25519: invalid signature")
+)
+
+// Ed25519VerifyWithOptions models ed25519.VerifyWithOptions.
+func Ed25519VerifyWithOptions(pub ed25519.PublicKey, message, sig []byte, opts *ed25519.Options) error {
+	c := &SigCtxCall{KeyID: keyID(pub), Msg: clone(message), Sig: clone(sig), Ctx: []byte(opts.Context)}
+	c.OK = Bool()
+	CtxVerifies = append(CtxVerifies, c)
+	if !c.OK {
+		return ErrVerify
+	}
+	return nil
+}
+
+// Ed25519PrivSign models ed25519.PrivateKey.Sign (used with a context option).
+func Ed25519PrivSign(priv ed25519.PrivateKey, rand io.Reader, message []byte, opts crypto.SignerOpts) ([]byte, error) {
+	sig := FreshBytes(64)
+	c := &SigCtxCall{KeyID: keyID(priv), Msg: clone(message), Sig: clone(sig)}
+	if o, ok := opts.(*ed25519.Options); ok {
+		c.Ctx = []byte(o.Context)
+	}
+	CtxSigns = append(CtxSigns, c)
+	return sig, nil
 }
